@@ -135,7 +135,11 @@ func RunSchedules(e *hx.Env, r *hx.Report, prop string, n int) {
 // RunScheduleLine replays a `schedule …` line.
 func RunScheduleLine(e *hx.Env, r *hx.Report, line, path string) {
 	n := len(r.Violations)
-	RunSchedules(e, r, r.Property, 3)
+	if strings.Contains(line, "cr-") {
+		RunCRSchedules(e, r, r.Property, 2)
+	} else {
+		RunSchedules(e, r, r.Property, 3)
+	}
 	for i := n; i < len(r.Violations); i++ {
 		r.Violations[i].Replay = path
 	}
